@@ -283,6 +283,8 @@ def run_standard_phases(mod, coll, tier, seed_value, shard=0, nshards=1):
     n_core = max(1, b["core"] // nshards)
     hyp_survey(mod, coll, "core", None, n_core, s)
     knobs = list(getattr(mod, "FRONTIER_KNOBS", ()))
+    if os.environ.get("VERIF_ONLY_KNOBS"):  # development aid: survey a subset of the frontier
+        knobs = [k for k in knobs if re.search(os.environ["VERIF_ONLY_KNOBS"], k)]
     n_f = int(os.environ.get("VERIF_FRONTIER", b.get("frontier", 0)))
     if n_f:
         for i, knob in enumerate(knobs):
